@@ -1,4 +1,4 @@
-import GstVerif.Basic.Proto
+import GstVerif.LinAlg.Mat
 /-
   Barycentric weights of a point in a simplex (projection of points on a mesh, src/Mesh/AMesh.cpp
   `_weightsInMesh`, src/LinearOp/ProjMatrix.cpp) — property C15.  Weights are ratios of signed
@@ -17,5 +17,30 @@ def area2 (px py qx qy rx ry : Q) : Q := (qx - px) * (ry - py) - (rx - px) * (qy
 def w2 (ax ay bx b_y cx cy x y : Q) : Q × Q × Q :=
   let d := area2 ax ay bx b_y cx cy
   (area2 x y bx b_y cx cy / d, area2 ax ay x y cx cy / d, area2 ax ay bx b_y x y / d)
+
+/-! ### precision operator of the SPDE approach: `Q = Λ p(S) Λ`
+
+`PrecisionOpCs::_build_Q` assembles the sparse matrix `Σ_k b_k S^k` by repeated products and scales
+it on both sides by `Λ`; `PrecisionOp::_addEvalPower` applies `Λ`, then the polynomial by Horner's
+scheme on vectors (`ClassicalPolynomial::evalOp`), then `Λ` again. -/
+open GstVerif.LinAlg
+
+/-- `Σ_k b_k S^k` (coefficients by increasing degree), by Horner's scheme on matrices -/
+def polyMat (n : Nat) (S : Mat) : List Q → Mat
+  | [] => Mat.ofFn n n fun _ _ => 0
+  | b :: bs => Mat.lin b (Mat.id n) 1 (S.mul (polyMat n S bs))
+
+/-- Horner's scheme on a vector: `p(S) v` without forming any power of `S` -/
+def hornerVec (n : Nat) (S : Mat) : List Q → List Q → List Q
+  | [], _ => List.replicate n 0
+  | b :: bs, v => List.zipWith (· + ·) (v.map (b * ·)) (S.mulVec (hornerVec n S bs v))
+
+/-- explicit form of the precision matrix -/
+def precisionExplicit (n : Nat) (S : Mat) (lam b : List Q) : Mat :=
+  ((Mat.diag lam).mul (polyMat n S b)).mul (Mat.diag lam)
+
+/-- matrix-free form applied to a vector -/
+def precisionFree (n : Nat) (S : Mat) (lam b v : List Q) : List Q :=
+  List.zipWith (· * ·) lam (hornerVec n S b (List.zipWith (· * ·) lam v))
 
 end GstVerif.Mesh
